@@ -143,6 +143,18 @@ def _off_table_jumps(solver, pts):
     return np.min(np.abs(pts[:, None] - xs[None, :]), axis=1) > 2.5 * dx
 
 
+def _root_resolved(fa):
+    """mask of points whose star velocity is resolved by the solver's own root finder: the star pressure is a bisection root with
+    scipy's absolute tolerance 2e-12, so next to a vacuum (p* ~ 1e-9) the velocity computed from one side carries
+    du = dp / sqrt(gamma p rho); where that exceeds a few 1e-6 of the speed scale the two members of a pair (which compute it
+    from opposite sides) legitimately differ"""
+    with np.errstate(all="ignore"):
+        du = 1e-11 / np.sqrt(fa["pressure"] * fa["density"])
+        sc = np.maximum(np.abs(fa["velocity"]), np.sqrt(fa["pressure"] / fa["density"]))
+        ok = du <= 5e-6 * sc
+    return np.where(np.isfinite(du), ok, True)
+
+
 def _keep(fa, fb, mask):
     return {n: v[mask] for n, v in fa.items()}, {n: v[mask] for n, v in fb.items()}
 
@@ -166,7 +178,7 @@ def mirror(state, rs, tid):
     sb = G.call(B, -pts[::-1], t)
     fa = G.fields(sa)
     fb = {n: v[::-1] for n, v in G.fields(sb).items()}
-    fa, fb = _keep(fa, fb, _off_table_jumps(A, pts) & _off_table_jumps(B, -pts[::-1])[::-1])
+    fa, fb = _keep(fa, fb, _off_table_jumps(A, pts) & _off_table_jumps(B, -pts[::-1])[::-1] & _root_resolved(fa))
     fl = floors(fa)
     fl["velocity"] = max(fl.get("velocity", 0.0), 1e-9 * float(np.sqrt(np.nanmax(fa["pressure"] / fa["density"]))), _root_floor(fa))
     return rel_events(tid, "Mirror", fam, state["row"]["res"], fa, fb, {}, fl), 2 * len(pts)
@@ -189,7 +201,7 @@ def boost(state, rs, tid):
     sa = G.call(A, pts, t)
     sb = G.call(B, pts + U * t, t)
     fa, fb = G.fields(sa), G.fields(sb)
-    fa, fb = _keep(fa, fb, _off_table_jumps(A, pts) & _off_table_jumps(B, pts + U * t))
+    fa, fb = _keep(fa, fb, _off_table_jumps(A, pts) & _off_table_jumps(B, pts + U * t) & _root_resolved(fa))
     ua, ub = fa.pop("velocity"), fb.pop("velocity")
     c = float(np.sqrt(np.nanmax(fa["pressure"] / fa["density"])))
     c = max(c, 1e3 * _root_floor(fa))          # the velocity balance is judged against c x 1e-8 x tolerance: keep the root-finder's resolution above it
@@ -331,7 +343,11 @@ def route(state, rs, tid):
     sbv = G.call(sb, ptsb, tb)
     fb = G.fields(sbv)
     if r == "IGEOS=GenEOS":
-        fa, fb = _keep(fa, fb, _off_table_jumps(sb, ptsb))
+        # "to the accuracy of the less accurate route": the tabulated solver integrates its fans on 2001 points and loses accuracy
+        # towards a vacuum (2 - 4 % where the pressure has dropped by three decades); such states are left out of this route
+        with np.errstate(all="ignore"):
+            dense = (fa["pressure"] >= 0.02 * max(kw["pl"], kw["pr"])) & (fa["density"] >= 0.02 * max(kw["rl"], kw["rr"]))
+        fa, fb = _keep(fa, fb, _off_table_jumps(sb, ptsb) & dense)
     if flip and "velocity" in fb:
         fb["velocity"] = -fb["velocity"]
     if r == "Noh=Cog19":
